@@ -9,8 +9,25 @@
    assignment to raw memory, a read of raw or indeterminate memory, a leak.
    Nothing else lives in this file. *)
 From Coq Require Import ZArith List Bool Arith.
-From VV Require Import SmallVec.SmallVecDefs SmallVec.SmallVecProofs.
+From VV Require Import SmallVec.SmallVecAst Gen.SmallVecOps SmallVec.SmallVecModelled SmallVec.SmallVecDefs SmallVec.SmallVecProofs.
 Import ListNotations.
+
+(* the tie to the source: Gen/SmallVecOps.v is regenerated from
+   src/utility/small_vector.tcc on every run.  (a) the range operations of
+   insert(i, b, e) that the model INTERPRETS are the extracted ones (the model's
+   [insert] is [insert_with insert_shape_gen]); they are the ones the proofs
+   below are about; (b) the normalised statement lists of all member
+   definitions are the ones the hand-written methods were modelled on. *)
+Theorem C20_source_as_modelled :
+  method_bodies = modelled_bodies /\
+  insert_shape_gen =
+    mkInsertShape
+      [IGAppendAtEnd; IGReturnIfEmpty]
+      ICondTailAtLeastN
+      [RAppendMoved (PMinus PEnd Nn) PEnd; RMove Bwd WAssign PI (PMinus POldEnd Nn) POldEnd; RCopyIn WAssign PI]
+      [RSizeAdd; RMove Fwd WByStorage PI POldEnd (PMinus PEnd Noverwritten); ROverwrite; RCopyIn WByStorage POldEnd].
+Proof. exact (conj bodies_as_modelled gen_shape). Qed.
+Print Assumptions C20_source_as_modelled.
 
 (* two default-constructed vectors satisfy the invariant *)
 Theorem C20_init_inv : forall P, 1 <= pS P -> Inv P (init P).
